@@ -1616,6 +1616,17 @@ sim_begin(const sim_config *cfg)
 	alloc_init();
 }
 
+// list walks: nng's lists carry no lock of their own; a walk that is not
+// covered by the right mutex can be overtaken by a modification at any step.
+// Only some runs pay for these extra scheduling points (cfg.list_points).
+extern "C" void
+sim_list_point(void)
+{
+	if (!sim_active() || !G.cfg.list_points)
+		return;
+	sched_point(EV_ATOMIC, 1, 99);
+}
+
 extern "C" void
 sim_atomic_point(int op, int spin)
 {
